@@ -1,39 +1,77 @@
 import Aiorpcx.C16.Lemmas
 /-! C16 — the credential / host-name *strings* survive: a UTF-8 decoder written from RFC 3629
-    (by byte layout, lenient about over-long forms) applied to `utf8 s` gives back `s`. -/
+    (strict: continuation bytes, shortest form, no surrogates, at most U+10FFFF) applied to `utf8 s` gives back `s`. -/
 namespace Aiorpcx.C16
 open Aiorpcx.Socks
 
 namespace Spec
 
-/-- value bits of a continuation byte `10xxxxxx` -/
-def cont (b : UInt8) : Nat := b.toNat - 0x80
+/-- value bits of a continuation byte `10xxxxxx`; any other byte is not a continuation byte -/
+def cont (b : UInt8) : Option Nat :=
+  if 0x80 ≤ b.toNat ∧ b.toNat < 0xC0 then some (b.toNat - 0x80) else none
 
-/-- RFC 3629 §3: 1-byte `0xxxxxxx`, 2-byte `110xxxxx 10xxxxxx`, 3-byte `1110xxxx 10.. 10..`,
-    4-byte `11110xxx 10.. 10.. 10..` -/
+/-- RFC 3629 §3/§4, strict: 1-byte `0xxxxxxx`, 2-byte `110xxxxx 10xxxxxx`, 3-byte
+    `1110xxxx 10.. 10..`, 4-byte `11110xxx 10.. 10.. 10..`; every trailing byte must be a
+    continuation byte `10xxxxxx`; over-long forms (`C0`/`C1` leads, 3-byte forms below U+0800,
+    4-byte forms below U+10000), UTF-16 surrogates U+D800..U+DFFF and values above U+10FFFF are
+    not UTF-8 -/
 def decodeUtf8 : (fuel : Nat) → List UInt8 → Option (List Nat)
   | 0, _ => none
   | _ + 1, [] => some []
   | f + 1, b0 :: rest =>
     if b0.toNat < 0x80 then (decodeUtf8 f rest).map (b0.toNat :: ·)
-    else if b0.toNat < 0xC0 then none
+    else if b0.toNat < 0xC2 then none
     else if b0.toNat < 0xE0 then
       match rest with
-      | b1 :: r => (decodeUtf8 f r).map (((b0.toNat - 0xC0) * 64 + cont b1) :: ·)
+      | b1 :: r =>
+        match cont b1 with
+        | some c1 => (decodeUtf8 f r).map (((b0.toNat - 0xC0) * 64 + c1) :: ·)
+        | none => none
       | _ => none
     else if b0.toNat < 0xF0 then
       match rest with
       | b1 :: b2 :: r =>
-        (decodeUtf8 f r).map (((b0.toNat - 0xE0) * 4096 + cont b1 * 64 + cont b2) :: ·)
+        match cont b1, cont b2 with
+        | some c1, some c2 =>
+          if (b0.toNat - 0xE0) * 4096 + c1 * 64 + c2 < 0x800 ∨
+              (0xD800 ≤ (b0.toNat - 0xE0) * 4096 + c1 * 64 + c2 ∧
+                (b0.toNat - 0xE0) * 4096 + c1 * 64 + c2 < 0xE000) then none
+          else (decodeUtf8 f r).map (((b0.toNat - 0xE0) * 4096 + c1 * 64 + c2) :: ·)
+        | _, _ => none
       | _ => none
-    else
+    else if b0.toNat < 0xF5 then
       match rest with
       | b1 :: b2 :: b3 :: r =>
-        (decodeUtf8 f r).map
-          (((b0.toNat - 0xF0) * 262144 + cont b1 * 4096 + cont b2 * 64 + cont b3) :: ·)
+        match cont b1, cont b2, cont b3 with
+        | some c1, some c2, some c3 =>
+          if (b0.toNat - 0xF0) * 262144 + c1 * 4096 + c2 * 64 + c3 < 0x10000 ∨
+              0x110000 ≤ (b0.toNat - 0xF0) * 262144 + c1 * 4096 + c2 * 64 + c3 then none
+          else (decodeUtf8 f r).map
+            (((b0.toNat - 0xF0) * 262144 + c1 * 4096 + c2 * 64 + c3) :: ·)
+        | _, _, _ => none
       | _ => none
+    else none
 
 end Spec
+
+/-- the decoder is strict about the byte layout: a lead byte followed by a non-continuation
+    byte, over-long forms and encoded surrogates are refused (so `utf8_roundtrip` pins the
+    RFC 3629 layout, not merely "some injective encoding") -/
+theorem decodeUtf8_strict :
+    Spec.decodeUtf8 9 [0xC3, 0x28] = none ∧ Spec.decodeUtf8 9 [0xC1, 0x80] = none ∧
+    Spec.decodeUtf8 9 [0xC0, 0xC0] = none ∧ Spec.decodeUtf8 9 [0xE0, 0x80, 0x80] = none ∧
+    Spec.decodeUtf8 9 [0xED, 0xA0, 0x80] = none ∧ Spec.decodeUtf8 9 [0xF4, 0x90, 0x80, 0x80] = none ∧
+    Spec.decodeUtf8 9 [0xE2, 0x82, 0x41] = none ∧ Spec.decodeUtf8 9 [0x80] = none ∧
+    Spec.decodeUtf8 9 [0xC3, 0xA9] = some [0xE9] ∧ Spec.decodeUtf8 9 [0xE2, 0x82, 0xAC] = some [0x20AC] ∧
+    Spec.decodeUtf8 9 [0xF0, 0x9F, 0x98, 0x80] = some [0x1F600] := by decide
+
+theorem cont_of (n : Nat) (h : n < 64) : Spec.cont (0x80 + n).toUInt8 = some n := by
+  have e : (0x80 + n).toUInt8.toNat = 0x80 + n := toUInt8_toNat (by omega)
+  generalize (0x80 + n).toUInt8 = x at e
+  unfold Spec.cont
+  rw [e, if_pos (by omega)]
+  have : 128 + n - 128 = n := by omega
+  rw [this]
 
 theorem decode_char (c : Nat) (bs : Bytes) (h : utf8Char c = .ok bs) (f : Nat) (rest : Bytes) :
     Spec.decodeUtf8 (f + 1) (bs ++ rest) = (Spec.decodeUtf8 f rest).map (c :: ·) := by
@@ -48,44 +86,37 @@ theorem decode_char (c : Nat) (bs : Bytes) (h : utf8Char c = .ok bs) (f : Nat) (
   · split at h
     · simp only [Except.ok.injEq] at h; subst h
       have e0 : (0xC0 + c / 64).toUInt8.toNat = 0xC0 + c / 64 := toUInt8_toNat (by omega)
-      have e1 : (0x80 + c % 64).toUInt8.toNat = 0x80 + c % 64 := toUInt8_toNat (by omega)
+      have e1 := cont_of (c % 64) (by omega)
       show Spec.decodeUtf8 (f + 1) ((0xC0 + c / 64).toUInt8 :: (0x80 + c % 64).toUInt8 :: rest) = _
       generalize (0xC0 + c / 64).toUInt8 = x0 at *
       generalize (0x80 + c % 64).toUInt8 = x1 at *
-      simp only [Spec.decodeUtf8]
-      unfold Spec.cont
-      rw [e0, e1, if_neg (by omega), if_neg (by omega), if_pos (by omega)]
-      have : (192 + c / 64 - 192) * 64 + (128 + c % 64 - 128) = c := by omega
+      simp only [Spec.decodeUtf8, e1]
+      rw [e0, if_neg (by omega), if_neg (by omega), if_pos (by omega)]
+      have : (192 + c / 64 - 192) * 64 + c % 64 = c := by omega
       rw [this]
     · split at h
       · simp at h
       · split at h
         · simp only [Except.ok.injEq] at h; subst h
           have e0 : (0xE0 + c / 4096).toUInt8.toNat = 0xE0 + c / 4096 := toUInt8_toNat (by omega)
-          have e1 : (0x80 + c / 64 % 64).toUInt8.toNat = 0x80 + c / 64 % 64 :=
-            toUInt8_toNat (by omega)
-          have e2 : (0x80 + c % 64).toUInt8.toNat = 0x80 + c % 64 := toUInt8_toNat (by omega)
+          have e1 := cont_of (c / 64 % 64) (by omega)
+          have e2 := cont_of (c % 64) (by omega)
           show Spec.decodeUtf8 (f + 1) ((0xE0 + c / 4096).toUInt8 :: (0x80 + c / 64 % 64).toUInt8
             :: (0x80 + c % 64).toUInt8 :: rest) = _
           generalize (0xE0 + c / 4096).toUInt8 = x0 at *
           generalize (0x80 + c / 64 % 64).toUInt8 = x1 at *
           generalize (0x80 + c % 64).toUInt8 = x2 at *
-          simp only [Spec.decodeUtf8]
-          unfold Spec.cont
-          rw [e0, e1, e2, if_neg (by omega), if_neg (by omega), if_neg (by omega),
-            if_pos (by omega)]
-          have : (224 + c / 4096 - 224) * 4096 + (128 + c / 64 % 64 - 128) * 64
-              + (128 + c % 64 - 128) = c := by omega
-          rw [this]
+          simp only [Spec.decodeUtf8, e1, e2]
+          have hv : (224 + c / 4096 - 224) * 4096 + c / 64 % 64 * 64 + c % 64 = c := by omega
+          rw [e0, if_neg (by omega), if_neg (by omega), if_neg (by omega), if_pos (by omega), hv,
+            if_neg (by omega)]
         · split at h
           · simp only [Except.ok.injEq] at h; subst h
             have e0 : (0xF0 + c / 262144).toUInt8.toNat = 0xF0 + c / 262144 :=
               toUInt8_toNat (by omega)
-            have e1 : (0x80 + c / 4096 % 64).toUInt8.toNat = 0x80 + c / 4096 % 64 :=
-              toUInt8_toNat (by omega)
-            have e2 : (0x80 + c / 64 % 64).toUInt8.toNat = 0x80 + c / 64 % 64 :=
-              toUInt8_toNat (by omega)
-            have e3 : (0x80 + c % 64).toUInt8.toNat = 0x80 + c % 64 := toUInt8_toNat (by omega)
+            have e1 := cont_of (c / 4096 % 64) (by omega)
+            have e2 := cont_of (c / 64 % 64) (by omega)
+            have e3 := cont_of (c % 64) (by omega)
             show Spec.decodeUtf8 (f + 1) ((0xF0 + c / 262144).toUInt8
               :: (0x80 + c / 4096 % 64).toUInt8 :: (0x80 + c / 64 % 64).toUInt8
               :: (0x80 + c % 64).toUInt8 :: rest) = _
@@ -93,13 +124,11 @@ theorem decode_char (c : Nat) (bs : Bytes) (h : utf8Char c = .ok bs) (f : Nat) (
             generalize (0x80 + c / 4096 % 64).toUInt8 = x1 at *
             generalize (0x80 + c / 64 % 64).toUInt8 = x2 at *
             generalize (0x80 + c % 64).toUInt8 = x3 at *
-            simp only [Spec.decodeUtf8]
-            unfold Spec.cont
-            rw [e0, e1, e2, e3, if_neg (by omega), if_neg (by omega), if_neg (by omega),
-              if_neg (by omega)]
-            have : (240 + c / 262144 - 240) * 262144 + (128 + c / 4096 % 64 - 128) * 4096
-                + (128 + c / 64 % 64 - 128) * 64 + (128 + c % 64 - 128) = c := by omega
-            rw [this]
+            simp only [Spec.decodeUtf8, e1, e2, e3]
+            have hv : (240 + c / 262144 - 240) * 262144 + c / 4096 % 64 * 4096
+                + c / 64 % 64 * 64 + c % 64 = c := by omega
+            rw [e0, if_neg (by omega), if_neg (by omega), if_neg (by omega), if_neg (by omega),
+              if_pos (by omega), hv, if_neg (by omega)]
           · simp at h
 
 /-- **String round trip**: whatever `str.encode()` produced decodes back to the same string
